@@ -7,7 +7,8 @@
 From Coq Require Import List ZArith Lia Bool.
 Import ListNotations.
 Require Import CV.LpCert CV.Transp1d CV.Transp1dProofs CV.Transp1dTerm CV.Transp1dCert
-               CV.Transp1dBoundedA CV.Transp1dBoundedB CV.Transp1dBoundedC CV.Transp1dBoundedD.
+               CV.Transp1dBoundedA CV.Transp1dBoundedB CV.Transp1dBoundedC CV.Transp1dBoundedD
+               CV.Transp1dOpt CV.Transp1dOptM5 CV.Transp1dOptProofs.
 Local Open Scope Z_scope.
 
 (* [F] Invariants of the positions p left by run() (push loop + flushPositions) on every sorted problem with positive
@@ -68,6 +69,26 @@ Theorem c14_certificate_sound :
   valid_plan pb sol /\ forall sol', valid_plan pb sol' -> plan_cost pb sol <= plan_cost pb sol'.
 Proof. exact check_plan_sound. Qed.
 
+(* [F] MAIN CLAUSE, all inputs, no size bound: the plan returned by solve() has minimum total distance cost
+   sum a*|u_i - v_j| among ALL valid plans of the problem -- for every input accepted by check() (unsorted, duplicate
+   positions, zero supplies and demands, slack demand).  Proof (Transp1dOptA1..A6, M1..M5, F1, F2, Transp1dOptProofs):
+   value-function invariant of the event sweep (the flushed positions attain the optimum Vf of the position problem),
+   and a lower bound Vf for every feasible plan (Kantorovich potential of the staircase plan with the same sink loads +
+   dynamic programming over the sources with the best-window lemma). *)
+Theorem c14_optimal :
+  forall pb sol, solve pb = Ok sol ->
+  forall sol', valid_plan pb sol' -> plan_cost pb sol <= plan_cost pb sol'.
+Proof. exact solve_optimal. Qed.
+
+(* [F] The same on the sorted problem handed to Transportation1dSolver: the cost of the positions computed by run()
+   (each source a contiguous block of the cumulative-demand axis) is at most the cost of every feasible plan X
+   (X i j >= 0, row sums = supplies, column sums <= demands). *)
+Theorem c14_run_optimal :
+  forall P p X, wf_sprob P -> sorted_sprob P -> run P = Some p -> feasible_mat P X ->
+  pos_cost P 0 p <= mat_cost P X.
+Proof. exact run_optimal. Qed.
+
+(* (superseded by c14_optimal, kept) *)
 (* [P] Optimality of solve() itself: proved only in the form "whenever the model's plan passes the checker"
    (validated per run on every correspondence case).  The unconditional statement
      forall pb sol, solve pb = Ok sol -> forall sol', valid_plan pb sol' -> plan_cost pb sol <= plan_cost pb sol'
@@ -114,6 +135,15 @@ Proof.
   split; [vm_compute; discriminate|]. split; [apply convert_wf, check_none; vm_compute; reflexivity|].
   unfold in_box. cbn. intuition lia.
 Qed.
+(* non-vacuity of c14_optimal: on the instance above another VALID plan is strictly more expensive than solve()'s *)
+Example c14_optimal_nonvacuous :
+  let alt := [(1%nat, 3%nat, 2); (3%nat, 1%nat, 1); (0%nat, 3%nat, 1); (0%nat, 0%nat, 2)] in
+  valid_plan c14_example alt /\
+  (forall sol, solve c14_example = Ok sol -> plan_cost c14_example sol = 10) /\ plan_cost c14_example alt = 11.
+Proof.
+  cbv zeta. split; [apply valid_planb_correct; vm_compute; reflexivity|]. split; [|vm_compute; reflexivity].
+  intros sol H. destruct c14_nonvacuous as (_ & E & _). rewrite E in H. inversion H; subst. vm_compute. reflexivity.
+Qed.
 (* non-vacuity of the certificate theorem: the checker rejects a valid but non-optimal plan and accepts the optimal one *)
 Example c14_certificate_discriminates :
   let pb := {| pb_u := [0; 10]; pb_v := [0; 10]; pb_s := [1; 1]; pb_d := [1; 1] |} in
@@ -133,6 +163,8 @@ Print Assumptions c14_assign_unsplit.
 Print Assumptions c14_no_oob.
 Print Assumptions c14_no_oob_unfixed_refuted.
 Print Assumptions c14_certificate_sound.
+Print Assumptions c14_optimal.
+Print Assumptions c14_run_optimal.
 Print Assumptions c14_optimal_partial.
 Print Assumptions c14_optimal_bounded_a.
 Print Assumptions c14_optimal_bounded_b.
